@@ -128,8 +128,9 @@ var world struct {
 	outs     []map[string]string // what filter i answers for account id
 	quar     bool
 	calls    []vtrace.Ev
-	blobN    int // blob-store Create calls since the last arm
-	blobFail int // fail the k-th Create (0 = never)
+	blobN    int  // blob-store Create calls since the last arm
+	blobFail int  // fail the k-th Create (0 = never)
+	fired    bool // the scripted blob-store failure happened
 }
 
 type scriptedFilter struct {
@@ -183,6 +184,9 @@ func (b *faultyBlobs) Create(ctx context.Context, key string, size int64) (modul
 	fail := world.blobFail != 0 && world.blobN == world.blobFail
 	world.mu.Unlock()
 	if fail {
+		world.mu.Lock()
+		world.fired = true
+		world.mu.Unlock()
 		return nil, errors.New("scripted blob store failure (disk full)")
 	}
 	return b.BlobStore.Create(ctx, key, size)
@@ -191,8 +195,8 @@ func (b *faultyBlobs) Create(ctx context.Context, key string, size int64) (modul
 // flakyTable is the delivery_map of behaviours that contain a failing lookup.
 type flakyTable struct{ m map[string]string }
 
-func (t *flakyTable) Name() string                { return "table.verif_flaky" }
-func (t *flakyTable) InstanceName() string        { return "" }
+func (t *flakyTable) Name() string               { return "table.verif_flaky" }
+func (t *flakyTable) InstanceName() string       { return "" }
 func (t *flakyTable) Init(cfg *config.Map) error { return nil }
 func (t *flakyTable) Lookup(ctx context.Context, key string) (string, bool, error) {
 	if key == addrText["f"] {
@@ -728,7 +732,7 @@ func runBehaviour(t *testing.T, b Behaviour, w io.Writer) {
 			tr.Emit("Login", vtrace.Ev{"acct": s.Acct, "res": resClass(err), "snap": snap()})
 		case "Body":
 			world.mu.Lock()
-			world.outs, world.calls, world.blobN, world.blobFail = s.Outs, nil, 0, s.Fault
+			world.outs, world.calls, world.blobN, world.blobFail, world.fired = s.Outs, nil, 0, s.Fault, false
 			world.mu.Unlock()
 			if e.fkind == "command" && b.Cfg.NF > 0 {
 				if err := e.armCommandPlan(s.Outs); err != nil {
@@ -739,6 +743,10 @@ func runBehaviour(t *testing.T, b Behaviour, w io.Writer) {
 			world.mu.Lock()
 			calls := world.calls
 			world.blobFail = 0
+			fault := 0
+			if world.fired {
+				fault = s.Fault // the position whose write was really made to fail (0: never reached)
+			}
 			world.mu.Unlock()
 			if e.fkind == "command" && b.Cfg.NF > 0 {
 				var cerr error
@@ -755,7 +763,7 @@ func runBehaviour(t *testing.T, b Behaviour, w io.Writer) {
 				outs = append(outs, o)
 			}
 			res := "ok"
-			ev := vtrace.Ev{"outs": outs, "fault": s.Fault, "calls": calls}
+			ev := vtrace.Ev{"outs": outs, "fault": fault, "asked": s.Fault, "calls": calls}
 			if err != nil {
 				res = "fail"
 				ev["err"] = err.Error()
